@@ -1,10 +1,14 @@
 ---------------------------- MODULE TreeDiffGen ----------------------------
 (* E1 + E2 for C10: TLC enumerates the tree pairs (s, t, extras) with t reachable from a start tree s by at most
-   MaxEdits edits, checks the design laws of TreeDiff on every pair and every path filter of the family, and exports
-   the pairs.  Start trees: every parent-closed subset of the ids at their home positions (Starts = "all") or only the
-   full tree and the trees lacking one leaf (Starts = "few"). *)
+   MaxEdits edits (rename, reparent, swap of two sibling names, kind change, content change, exec-bit change, add,
+   delete, an unversioned file dropped into a directory), checks the design laws of TreeDiff on every pair and every
+   path filter of the family (non-empty sets of at most MaxFilter paths of either tree, and the set of all paths), and
+   exports the pairs.  Start trees: every parent-closed subset of the ids at their home positions (Starts = "all") or
+   only the full tree and the trees lacking one id (Starts = "few").
+   The pairs are the states of a little machine (one edit per step, never leaving the exported set), so that TLC checks
+   the laws once per pair and in parallel. *)
 EXTENDS TreeDiff, Json, IOUtils, SequencesExt
-CONSTANTS MaxEdits, Starts
+CONSTANTS MaxEdits, Starts, MaxFilter
 
 HomeTree(V) == [i \in Ids |-> IF i \in V THEN Home(i) ELSE NoEntry]
 ClosedSets == {V \in SUBSET Ids : "fda" \in V => "dd" \in V}
@@ -15,7 +19,7 @@ StartTrees == {HomeTree(V) : V \in StartSets}
 Other(k) == IF k = "file" THEN "directory" ELSE "file"
 Candidates(t) ==
        {[t EXCEPT ![i].name = n] : i \in Versioned(t), n \in Names}                                   \* rename
-  \cup {[t EXCEPT ![i].parent = p] : i \in Versioned(t), p \in Ids \cup {ROOT}}                       \* reparent
+  \cup {[t EXCEPT ![i].parent = q] : i \in Versioned(t), q \in Ids \cup {ROOT}}                       \* reparent
   \cup {[t EXCEPT ![i[1]].name = t[i[2]].name, ![i[2]].name = t[i[1]].name] :
           i \in {j \in Versioned(t) \X Versioned(t) : t[j[1]].parent = t[j[2]].parent}}               \* swap two names
   \cup {[t EXCEPT ![i] = Entry(t[i].parent, t[i].name, Other(t[i].kind), FALSE, 0)] : i \in Versioned(t)}  \* kind
@@ -25,39 +29,45 @@ Candidates(t) ==
   \cup {[t EXCEPT ![i] = NoEntry] : i \in Versioned(t)}                                                \* delete
 TreeSteps(t) == {u \in Candidates(t) : u # t /\ ValidTree(u)}
 Dirs(t) == {ROOT} \cup {i \in Versioned(t) : t[i].kind = "directory"}
-\* a state is <<t, tx>>; an edit changes the tree (extras in vanished directories vanish) or drops an unversioned file
-StepsOf(x) == {<<u, x[2] \cap Dirs(u)>> : u \in TreeSteps(x[1])} \cup {<<x[1], x[2] \cup {p}>> : p \in Dirs(x[1]) \ x[2]}
+\* a point is <<t, tx>>; an edit changes the tree (extras in vanished directories vanish) or drops an unversioned file
+StepsOf(x) == {<<u, x[2] \cap Dirs(u)>> : u \in TreeSteps(x[1])} \cup {<<x[1], x[2] \cup {d}>> : d \in Dirs(x[1]) \ x[2]}
 RECURSIVE Reach(_, _)
 Reach(S, n) == IF n = 0 THEN S ELSE Reach(S \cup UNION {StepsOf(x) : x \in S}, n - 1)
-Pairs == UNION {{[s |-> s, t |-> x[1], tx |-> SetToSeq(x[2])] : x \in Reach({<<s, {}>>}, MaxEdits)} : s \in StartTrees}
+Pairs == UNION {{[s |-> s, t |-> x[1], tx |-> x[2]] : x \in Reach({<<s, {}>>}, MaxEdits)} : s \in StartTrees}
 
-PathUnion(p) == (Paths(p.s) \cup Paths(p.t)) \cup {<<>>}
-FilterFamily(P) == {F \in SUBSET P : Cardinality(F) <= 2 /\ F # {}} \cup {P}
-Query(p, f, iu, wu) == [s |-> p.s, t |-> p.t, tx |-> p.tx, f |-> f, iu |-> iu, wu |-> wu]
+PathUnion(pp) == (Paths(pp.s) \cup Paths(pp.t)) \cup {<<>>}
+FilterFamily(P) == {F \in SUBSET P : Cardinality(F) <= MaxFilter /\ F # {}} \cup {P}
+Query(pp, f, iu, wu) == [s |-> pp.s, t |-> pp.t, tx |-> SetToSeq(pp.tx), f |-> f, iu |-> iu, wu |-> wu]
 SpecObs(q) == LET r == SetToSeq(SpecOut(q, FALSE)) w == SetToSeq(SpecOut(q, TRUE))
               IN [chk |-> r, inv |-> r, old |-> r, ds |-> w, wt |-> w]
 
 VARIABLE p
-Init == p \in Pairs
-Next == UNCHANGED p
-Queries(pp) == {Query(pp, <<"all">>, iu, wu) : iu \in BOOLEAN, wu \in BOOLEAN}
-               \cup {Query(pp, <<"only", SetToSeq(F)>>, iu, wu) : F \in FilterFamily(PathUnion(pp)), iu \in BOOLEAN, wu \in BOOLEAN}
+Init == p \in {[s |-> s, t |-> s, tx |-> {}] : s \in StartTrees}
+Next == \E x \in StepsOf(<<p.t, p.tx>>) : /\ p' = [s |-> p.s, t |-> x[1], tx |-> x[2]]
+                                           /\ p' \in Pairs
+\* the complete law text (as the trace module applies it) on the expected output of a few representative queries
+FullQueries(pp) == {Query(pp, <<"all">>, TRUE, TRUE), Query(pp, <<"all">>, FALSE, FALSE),
+                    Query(pp, <<"only", SetToSeq(PathUnion(pp) \ {<<>>})>>, TRUE, TRUE)}
 LawsHoldOnSpec ==
-    /\ ValidTree(p.s) /\ ValidTree(p.t)
-    /\ \A q \in Queries(p) : /\ Failed(q, SpecObs(q)) = {}
-                             /\ GitFailed(q, [rt |-> SetToSeq(GitSpecOut(q))]) = {}
-    \* the declarative core, stated directly
+    /\ ValidTree(p.s) /\ ValidTree(p.t) /\ p \in Pairs
+    \* the declarative core, stated directly: Diff and Apply are inverse; the filter rule yields parent-complete deltas
+    \* that contain every change inside the filter
     /\ Apply(p.s, Diff(p.s, p.t), p.t) = p.t
-    /\ \A F \in FilterFamily(PathUnion(p)) : ParentsValid(Apply(p.s, Restrict(p.s, p.t, F), p.t))
+    /\ \A F \in FilterFamily(PathUnion(p)) :
+          LET R == Restrict(p.s, p.t, F) q == Query(p, <<"only", SetToSeq(F)>>, FALSE, FALSE)
+          IN ParentsValid(Apply(p.s, R, p.t)) /\ CompleteOk(q, R) /\ R \subseteq Diff(p.s, p.t)
+    /\ \A q \in FullQueries(p) : /\ Failed(q, SpecObs(q)) = {}
+                                 /\ GitFailed(q, [rt |-> SetToSeq(GitSpecOut(q))]) = {}
+                                 /\ DriftKeys(q, SpecObs(q)) = {}
 \* anti-vacuity witnesses: TLC must find these states
 WitnessParentsRule == ~(\E F \in FilterFamily(PathUnion(p)) :
                           \E c \in Restrict(p.s, p.t, F) : c.id \notin Selected(p.s, p.t, F))
 WitnessDirRenameChild == ~(\E i \in Versioned(p.s) : p.s[i] = p.t[i] /\ Path(p.s, i) # Path(p.t, i))
 WitnessSwap == ~(\E i, j \in Versioned(p.s) : i # j /\ p.t[i].v /\ p.t[j].v /\ Path(p.s, i) = Path(p.t, j) /\ Path(p.s, j) = Path(p.t, i))
 WitnessKindChange == ~(\E i \in Versioned(p.s) : p.t[i].v /\ p.s[i].kind # p.t[i].kind)
-WitnessExtras == ~(p.tx # <<>> /\ p.s # p.t)
+WitnessExtras == ~(p.tx # {} /\ p.s # p.t)
 \* the filter rule guarantees parents, not unique names: a filtered delta can put an entry on a still-occupied name
 WitnessNameCollision == ~(\E F \in FilterFamily(PathUnion(p)) : ~NamesUnique(Apply(p.s, Restrict(p.s, p.t, F), p.t)))
-Export == JsonSerialize(IOEnv.VF_OUT, SetToSeq({[s |-> x.s, t |-> x.t, tx |-> x.tx, paths |-> SetToSeq(PathUnion(x))] : x \in Pairs}))
+Export == JsonSerialize(IOEnv.VF_OUT, SetToSeq({[s |-> x.s, t |-> x.t, tx |-> SetToSeq(x.tx), paths |-> SetToSeq(PathUnion(x))] : x \in Pairs}))
 ASSUME IF "VF_OUT" \in DOMAIN IOEnv THEN Export ELSE TRUE
 =============================================================================
